@@ -571,7 +571,56 @@ func c16Shutdown(c *Ctx) {
 	c.check(same, "C16.R3", "upstream.Server/ctx-cancel-pair", token.NoPos, "ctx and cancel are stored once, from one context.WithCancel", "Server.ctx and Server.cancel do not come from a single WithCancel in the constructor")
 }
 
+// c16VerifierWiring (C16.R8): every JWTVerifier built outside tests carries the
+// configured disable_disconnect_on_expiry flag. A constructor arm that forgets it
+// (JWKS only, say) disconnects and deregisters upstreams at exp although the
+// operator turned that off - and the reverse slip keeps them past expiry.
+func c16VerifierWiring(c *Ctx) {
+	p := c.P
+	vt := p.NamedType("pkg/auth", "JWTVerifier")
+	disableF := p.Field("pkg/auth", "JWTVerifier", "disableDisconnectOnExpiry")
+	confF := p.Field("pkg/auth", "LoadedConfig", "DisableDisconnectOnExpiry")
+	if vt == nil || disableF == nil || confF == nil {
+		c.fail("C16.anchor", "JWTVerifier.disableDisconnectOnExpiry / LoadedConfig.DisableDisconnectOnExpiry", token.NoPos, "not found")
+		return
+	}
+	n := 0
+	for _, fn := range p.ModFuncs {
+		if isTestFile(p.Fset, fn.Pos()) {
+			continue
+		}
+		k := 0
+		allInstrs(fn, func(i ssa.Instruction) {
+			al, ok := i.(*ssa.Alloc)
+			if !ok {
+				return
+			}
+			pt, ok := al.Type().Underlying().(*types.Pointer)
+			if !ok || !types.Identical(pt.Elem(), vt) {
+				return
+			}
+			n++
+			k++
+			wired := false
+			for _, fsx := range fieldStores(al) {
+				if fsx.f != disableF {
+					continue
+				}
+				if _, ok := loadedField(fsx.st.Val, confF); ok {
+					wired = true
+				}
+			}
+			c.check(wired, "C16.R8", fmt.Sprintf("%s/verifier[%d]/carries-disconnect-flag", fnName(fn), k), al.Pos(), "disableDisconnectOnExpiry := conf.DisableDisconnectOnExpiry",
+				"a JWTVerifier is built without taking disable_disconnect_on_expiry from the configuration: upstreams using this verifier are disconnected (or kept) at expiry against the configuration")
+		})
+	}
+	if n == 0 {
+		c.fail("C16.R8", "verifier-constructions", token.NoPos, "no construction of JWTVerifier found")
+	}
+}
+
 func c16Expiry(c *Ctx) {
+	c16VerifierWiring(c)
 	p := c.P
 	c.floor("C16.R4", 3)
 	expF := p.Field("pkg/auth", "Token", "Expiry")
